@@ -6,6 +6,7 @@ import (
 	"go/ast"
 	"go/token"
 	"math/rand"
+	"path/filepath"
 	"strconv"
 	"strings"
 
@@ -323,14 +324,74 @@ func live(m dsl.Matcher) {
 `
 
 type dcObs struct {
-	K        string   `json:"k"`
-	Name     string   `json:"name"`
-	Probes   int      `json:"probes"`
-	Dead     int      `json:"dead"`
-	Sigs     []string `json:"sigs"`
-	Mismatch []string `json:"mismatch,omitempty"`
-	Src      string   `json:"src,omitempty"`
-	Err      string   `json:"err,omitempty"`
+	K        string            `json:"k"`
+	Name     string            `json:"name"`
+	Probes   int               `json:"probes"`
+	Dead     int               `json:"dead"`
+	Sigs     []string          `json:"sigs"`
+	Mismatch []string          `json:"mismatch,omitempty"`
+	Src      string            `json:"src,omitempty"`
+	Err      string            `json:"err,omitempty"`
+	Config   string            `json:"config,omitempty"`  // the load history of the engine
+	Files    map[string]string `json:"files,omitempty"`   // ... its rules files (on a mismatch)
+	Order    []string          `json:"order,omitempty"`
+	Poison   string            `json:"poison,omitempty"`  // what ran on the shared state right before
+	DeadPanics int             `json:"dead_panics"`       // runs aborted by a panicking callback inside a dead branch before this one
+}
+
+// rules files without any Deadcode() filter (merged before / after the ones that have it)
+const deadOther = `package gorules
+
+import "github.com/quasilyte/go-ruleguard/dsl"
+
+func plus(m dsl.Matcher) {
+	m.Match(` + "`$x + $y`" + `).Report(` + "`plus`" + `)
+	m.MatchComment(` + "`doc`" + `).Report(` + "`doc comment`" + `)
+}
+`
+
+const deadOther2 = `package gorules
+
+import "github.com/quasilyte/go-ruleguard/dsl"
+
+func eq(m dsl.Matcher) {
+	m.Match(` + "`$x == $y`" + `).Where(m["y"].Const).Report(` + "`compared with a constant`" + `)
+}
+
+func blocks(m dsl.Matcher) {
+	m.Match(` + "`{ $*_ }`" + `).Report(` + "`block`" + `)
+}
+`
+
+func deadWithBundle(own, pkg string) string {
+	body := own[strings.Index(own, "func "):]
+	return "package gorules\n\nimport \"github.com/quasilyte/go-ruleguard/dsl\"\nimport \"example.com/" + pkg + "\"\n\nfunc init() {\n\tdsl.ImportRules(\"b\", " + pkg + ".Bundle)\n}\n\n" + body
+}
+
+// deadConfigs: load histories that all contain one Deadcode() and one !Deadcode() rule on probe($x) -- alone, loaded
+// before / after / between files that have no such filter, next to imported bundles (own rules first, then the bundle's
+// files), or inside a bundle whose later files have none.
+func deadConfigs() []struct {
+	Name  string
+	Files map[string]string
+	Order []string
+} {
+	type cfg = struct {
+		Name  string
+		Files map[string]string
+		Order []string
+	}
+	return []cfg{
+		{"Load(deadcode rules)", map[string]string{"dead.go": deadRules}, []string{"dead.go"}},
+		{"Load(deadcode rules); Load(rules without Deadcode)", map[string]string{"dead.go": deadRules, "other.go": deadOther}, []string{"dead.go", "other.go"}},
+		{"Load(rules without Deadcode); Load(deadcode rules)", map[string]string{"dead.go": deadRules, "other.go": deadOther}, []string{"other.go", "dead.go"}},
+		{"Load(deadcode rules); Load(other); Load(other2)", map[string]string{"dead.go": deadRules, "other.go": deadOther, "other2.go": deadOther2}, []string{"dead.go", "other.go", "other2.go"}},
+		{"Load(other); Load(deadcode rules); Load(other2)", map[string]string{"dead.go": deadRules, "other.go": deadOther, "other2.go": deadOther2}, []string{"other.go", "dead.go", "other2.go"}},
+		{"Load(deadcode rules + import of bundle wb3, which has no Deadcode)", map[string]string{"dead.go": deadWithBundle(deadRules, "wb3")}, []string{"dead.go"}},
+		{"Load(deadcode rules + import of the comment-only bundle wb4)", map[string]string{"dead.go": deadWithBundle(deadRules, "wb4")}, []string{"dead.go"}},
+		{"Load(other + import of bundle wb2, whose first file has the Deadcode rules)", map[string]string{"other.go": deadWithBundle(deadOther, "wb2")}, []string{"other.go"}},
+		{"Load(other + import of bundle wb2); Load(other2)", map[string]string{"other.go": deadWithBundle(deadOther, "wb2"), "other2.go": deadOther2}, []string{"other.go", "other2.go"}},
+	}
 }
 
 // contextSig describes the enclosing ifs of a node: per if, constant-ness of the condition and the part entered.
@@ -368,13 +429,28 @@ func contextSig(t *tnode, condOfNode func(ast.Node) (bool, bool)) string {
 }
 
 func runDeadcode(enc *json.Encoder, rng *rand.Rand, nfiles, size int, tmp string) {
-	fset := token.NewFileSet()
-	e, err := hutil.LoadEngine(fset, map[string]string{"rules.go": deadRules}, []string{"rules.go"})
-	if err != nil {
-		enc.Encode(dcObs{K: "dc", Err: "load: " + err.Error()})
+	type engCfg struct {
+		name   string
+		files  map[string]string
+		order  []string
+		e      *ruleguard.Engine
+		shared *ruleguard.RunnerState
+		prev   *hutil.Target // the file that ran on the shared state last
+	}
+	var cfgs []*engCfg
+	for _, c := range deadConfigs() {
+		e, err := loadHistory(token.NewFileSet(), c.Files, c.Order, nil)
+		if err != nil {
+			enc.Encode(dcObs{K: "dc", Config: c.Name, Err: "load: " + err.Error(), Files: c.Files, Order: c.Order})
+			continue
+		}
+		cfgs = append(cfgs, &engCfg{name: c.Name, files: c.Files, order: c.Order, e: e, shared: ruleguard.NewRunnerState(e)})
+	}
+	if len(cfgs) < 2 {
 		return
 	}
-	shared := ruleguard.NewRunnerState(e)
+	isDead := func(group string) bool { return strings.HasSuffix(group, "dead") }
+	isLive := func(group string) bool { return strings.HasSuffix(group, "live") }
 	for i := 0; i < nfiles; i++ {
 		src := genFile(rng, i, size)
 		name := fmt.Sprintf("dc%d/target.go", i)
@@ -383,32 +459,8 @@ func runDeadcode(enc *json.Encoder, rng *rand.Rand, nfiles, size int, tmp string
 			enc.Encode(dcObs{K: "dc", Name: name, Err: err.Error(), Src: src})
 			continue
 		}
-		obs := dcObs{K: "dc", Name: name}
-		// engine verdicts, once with a state shared by all files of this run and once with a fresh one
-		verdict := func(state *ruleguard.RunnerState) (map[int]string, string) {
-			reps, pmsg := hutil.Run(e, t, 0, "", state)
-			out := map[int]string{}
-			for _, r := range reps {
-				lab, err := strconv.Atoi(string(t.Src[r.Pos+len("probe(") : r.End-1]))
-				if err != nil {
-					return nil, "report on a non-probe node: " + string(t.Src[r.Pos:r.End])
-				}
-				if prev, dup := out[lab]; dup {
-					out[lab] = prev + "+" + r.Group
-				} else {
-					out[lab] = r.Group
-				}
-			}
-			return out, pmsg
-		}
-		vShared, p1 := verdict(shared)
-		vFresh, p2 := verdict(nil)
-		if p1 != "" || p2 != "" {
-			obs.Mismatch = append(obs.Mismatch, "run failed: "+p1+p2)
-		}
 		// independent expectation + the hook's flag
-		_, ids, order := buildTree(t.File)
-		_ = ids
+		_, _, order := buildTree(t.File)
 		exp := expected(t.Info, order, event{Func: -1})
 		expDead := map[int]bool{}
 		for _, ev := range exp {
@@ -419,47 +471,106 @@ func runDeadcode(enc *json.Encoder, rng *rand.Rand, nfiles, size int, tmp string
 		for _, ev := range hookEvs {
 			hookDead[ev.Node] = ev.Dead
 		}
-		sigs := map[string]bool{}
-		for _, tn := range order {
-			call, ok := tn.n.(*ast.CallExpr)
-			if !ok {
-				continue
+		// every file under the single-file engine and under one of the other load histories
+		for _, cfg := range []*engCfg{cfgs[0], cfgs[1+i%(len(cfgs)-1)]} {
+			obs := dcObs{K: "dc", Name: name, Config: cfg.name}
+			// engine verdicts: "dead" / "live" by the group that reported the probe (reports of other rules are not looked at)
+			verdict := func(state *ruleguard.RunnerState) (map[int]string, []hReport, string) {
+				reps, _, pmsg := runOnce(cfg.e, t, t.File, 0, state, -1)
+				out := map[int]string{}
+				for _, r := range reps {
+					if !isDead(r.Group) && !isLive(r.Group) {
+						continue
+					}
+					lab, err := strconv.Atoi(string(t.Src[r.Pos+len("probe(") : r.End-1]))
+					if err != nil {
+						return nil, nil, "report on a non-probe node: " + string(t.Src[r.Pos:r.End])
+					}
+					v := "live"
+					if isDead(r.Group) {
+						v = "dead"
+					}
+					if prev, dup := out[lab]; dup {
+						out[lab] = prev + "+" + v
+					} else {
+						out[lab] = v
+					}
+				}
+				return out, reps, pmsg
 			}
-			id, ok := call.Fun.(*ast.Ident)
-			if !ok || id.Name != "probe" || len(call.Args) != 1 {
-				continue
+			vFresh, freshReps, p2 := verdict(nil)
+			// the shared state has seen the earlier files of this engine; now and then the run right before this one is
+			// aborted by a Report callback that panics while the walk is inside a dead branch (of the previous file or of
+			// this one), the panic is recovered and the state used again
+			if rng.Intn(2) == 0 {
+				pt, preps := t, freshReps
+				if cfg.prev != nil && rng.Intn(2) == 0 {
+					pt = cfg.prev
+					preps, _, _ = runOnce(cfg.e, pt, pt.File, 0, nil, -1)
+				}
+				var deadIdx []int
+				for ri, r := range preps {
+					if isDead(r.Group) {
+						deadIdx = append(deadIdx, ri)
+					}
+				}
+				if len(deadIdx) > 0 {
+					at := deadIdx[rng.Intn(len(deadIdx))]
+					_, panicked, _ := runOnce(cfg.e, pt, pt.File, 0, cfg.shared, at)
+					if panicked {
+						obs.DeadPanics++
+						obs.Poison = fmt.Sprintf("a run over %s on the same state, aborted by a panic of the Report callback at report #%d (%s at offset %d, inside a dead branch, function %s); the panic was recovered",
+							filepath.Base(filepath.Dir(pt.Path)), at, preps[at].Group, preps[at].Pos, preps[at].Func)
+					}
+				}
 			}
-			lab, _ := strconv.Atoi(call.Args[0].(*ast.BasicLit).Value)
-			obs.Probes++
-			want := "live"
-			if expDead[tn.id] {
-				want = "dead"
-				obs.Dead++
+			vShared, _, p1 := verdict(cfg.shared)
+			cfg.prev = t
+			if p1 != "" || p2 != "" {
+				obs.Mismatch = append(obs.Mismatch, "run failed: "+p1+p2)
 			}
-			sig := contextSig(tn, func(n ast.Node) (bool, bool) { return condOf(t.Info, n) })
-			if sig != "" {
-				sigs[want+":"+sig] = true
+			sigs := map[string]bool{}
+			for _, tn := range order {
+				call, ok := tn.n.(*ast.CallExpr)
+				if !ok {
+					continue
+				}
+				id, ok := call.Fun.(*ast.Ident)
+				if !ok || id.Name != "probe" || len(call.Args) != 1 {
+					continue
+				}
+				lab, _ := strconv.Atoi(call.Args[0].(*ast.BasicLit).Value)
+				obs.Probes++
+				want := "live"
+				if expDead[tn.id] {
+					want = "dead"
+					obs.Dead++
+				}
+				sig := contextSig(tn, func(n ast.Node) (bool, bool) { return condOf(t.Info, n) })
+				if sig != "" {
+					sigs[want+":"+sig] = true
+				}
+				hk := "live"
+				if hookDead[tn.n] {
+					hk = "dead"
+				}
+				if vShared[lab] != want || vFresh[lab] != want || hk != want {
+					pos := t.Fset.Position(call.Pos())
+					obs.Mismatch = append(obs.Mismatch, fmt.Sprintf("probe(%d) at line %d [%s]: expected %s, engine(shared state)=%q engine(fresh)=%q walker-flag=%s",
+						lab, pos.Line, sig, want, vShared[lab], vFresh[lab], hk))
+				}
 			}
-			hk := "live"
-			if hookDead[tn.n] {
-				hk = "dead"
+			for s := range sigs {
+				obs.Sigs = append(obs.Sigs, s)
 			}
-			if vShared[lab] != want || vFresh[lab] != want || hk != want {
-				pos := t.Fset.Position(call.Pos())
-				obs.Mismatch = append(obs.Mismatch, fmt.Sprintf("probe(%d) at line %d [%s]: expected %s, engine(shared state)=%q engine(fresh)=%q walker-flag=%s",
-					lab, pos.Line, sig, want, vShared[lab], vFresh[lab], hk))
+			if len(obs.Mismatch) > 0 {
+				obs.Src, obs.Files, obs.Order = src, cfg.files, cfg.order
+				if len(obs.Mismatch) > 8 {
+					obs.Mismatch = obs.Mismatch[:8]
+				}
 			}
+			enc.Encode(obs)
 		}
-		for s := range sigs {
-			obs.Sigs = append(obs.Sigs, s)
-		}
-		if len(obs.Mismatch) > 0 {
-			obs.Src = src
-			if len(obs.Mismatch) > 8 {
-				obs.Mismatch = obs.Mismatch[:8]
-			}
-		}
-		enc.Encode(obs)
 	}
 }
 
